@@ -95,7 +95,11 @@ func runC12(w *World) {
 		// the error coincides with the resolution of a connection collision: the remote's
 		// OPEN on the second connection arrives together with it
 		coincide := second && st == StOpenConfirm && w.Chance(1, 2, "error-coincides-with-collision")
+		// ... or with the second connection becoming Established (its KEEPALIVE arrives
+		// together with the error on the first one, which is still in OpenSent)
+		coincideEst := second && st == StOpenSent && w.Chance(1, 2, "error-coincides-with-established")
 		var c2nd *Conn
+		var trig []byte
 		// ---- acquire a connection in the target state ----
 		var c *Conn
 		if dir == DirOut {
@@ -187,15 +191,30 @@ func runC12(w *World) {
 				w.Sleep(20 * time.Millisecond)
 			}
 		}
+		if coincideEst && c2nd != nil && !c2nd.LocalClosed() {
+			// bring the second connection to OpenConfirm first (zero virtual time)
+			nf0 := c2nd.NFrames()
+			c2nd.SendSeg(p.Speaker.OpenFrame())
+			w.Quiesce()
+			if fs2 := NewFrames(c2nd, nf0); len(fs2) == 1 && fs2[0].Type == MsgKeepalive && !c2nd.LocalClosed() && !c.LocalClosed() {
+				coincide, trig = true, KeepaliveFrame()
+				w.Probe("error-coincides-with-established")
+			}
+		}
 		damp := true
 		name := ""
 		before := c.NFrames()
 		slept0, tInj, seqT := w.LogSlept, w.Now(), w.Seq()
 		openAfter := false
+		if coincide && trig == nil {
+			trig = p.Speaker.OpenFrame()
+		}
 		if coincide && c2nd != nil && !c2nd.LocalClosed() {
-			w.Probe("error-coincides-with-collision")
+			if !coincideEst {
+				w.Probe("error-coincides-with-collision")
+			}
 			if w.Draw(2, "open-first") == 0 {
-				c2nd.SendSeg(p.Speaker.OpenFrame())
+				c2nd.SendSeg(trig)
 				for i, n := 0, w.Draw(8, "coincide-yields"); i < n; i++ {
 					w.Yield("c12.coincide")
 				}
@@ -284,10 +303,13 @@ func runC12(w *World) {
 				w.Yield("c12.coincide")
 			}
 			if !c2nd.LocalClosed() {
-				c2nd.SendSeg(p.Speaker.OpenFrame())
+				c2nd.SendSeg(trig)
 			}
 		}
 		w.Quiesce()
+		// one-shot plugin reactions that were not consumed (the connection went away first)
+		// must not leak into a later event
+		openRet, handlerRet, handlerNotif = nil, nil, false
 		t := tInj // (a slow Logger makes the settling above take time)
 		fs := NewFrames(c, before)
 		if coincide && damp && kind <= 1 {
@@ -355,7 +377,11 @@ func runC12(w *World) {
 					// the history of known finding D9 (DESIGN 11.4): corebgp answered the remote's
 					// OPEN on the second connection (it won the collision) although the FSM of the
 					// first one had already sent or handled the protocol NOTIFICATION
-					w.Violate("C12/protocol-error-lost/collision-kill-wins-the-report", "after %s (history %v) on %s, at the instant the peer manager resolved the collision in favour of %s: %s was closed, but the protocol error never reached the peer manager - %s is still open (%s) and there is no hold-down", name, hist, c, x, c, x, descFrames(x.AllFrames()))
+					sig := "C12/protocol-error-lost/collision-kill-wins-the-report"
+					if coincideEst {
+						sig = "C12/protocol-error-lost/established-disable-wins-the-report"
+					}
+					w.Violate(sig, "after %s (history %v) on %s, at the instant the peer manager resolved the collision in favour of %s: %s was closed, but the protocol error never reached the peer manager - %s is still open (%s) and there is no hold-down", name, hist, c, x, c, x, descFrames(x.AllFrames()))
 					return
 				}
 				w.Violate("C12/connection-not-dropped", "after %s connection %s is still open", name, x)
